@@ -271,12 +271,27 @@ def observe(top):
     return {"chains": chains, "residues": residues, "atoms": atoms, "bonds": bonds, "struct": struct, "hidden": hidden}
 
 
+def _n(x):
+    return x if x == x else "nan"
+
+
 def snapshot(top):
-    o = observe(top)
-    return (_canon(o["chains"]), _canon(o["residues"]), _canon(o["atoms"]), _canon(o["bonds"]))
+    """(chains, residues, atoms, bonds) — every attribute reachable from the topology, bonds read through the
+    bond's own atom references (so a bond that holds another topology's atom shows that atom's current
+    index/name/residue).  Plain tuples, nan-safe; used for 'is this topology unchanged'."""
+    chains, residues, atoms = [], [], []
+    for ch in top.chains:
+        chains.append((ch.index, ch.chain_id, len(ch._residues)))
+        for res in ch.residues:
+            residues.append((res.index, res.name, _n(res.resSeq), res.segment_id, len(res._atoms)))
+            for at in res.atoms:
+                atoms.append((at.index, at.name, at.element, _n(at.serial)))
+    bonds = [(b[0].index, b[0].name, b[0].element, b[0].residue.index, b[1].index, b[1].name, b[1].element,
+              b[1].residue.index, b.type, b.order) for b in top.bonds]
+    return (tuple(chains), tuple(residues), tuple(atoms), tuple(bonds), (top.n_atoms, top.n_residues, top.n_chains))
 
 
-SNAP_PARTS = ("chains", "residues", "atoms", "bonds")
+SNAP_PARTS = ("chains", "residues", "atoms", "bonds", "counts")
 
 
 def _canon(x):
@@ -349,12 +364,14 @@ def same(a, b):
         return False
 
 
-def vclass(v):
+def vclass(v, fine=True):
     if v is None:
         return "None"
     if _is_nan(v):
         return "nan"
     if _is_int(v):
+        if not fine:
+            return "int"
         return "0" if v == 0 else ("neg" if v < 0 else "int")
     if isinstance(v, str):
         return "str" if v else "empty"
@@ -378,7 +395,7 @@ def compare(exp, got):
     for f in (NAME, ELEM, SERIAL, RESNAME, RESSEQ, SEG, CID):
         bad = [(i, e[f], g[f]) for i, (e, g) in enumerate(zip(ea, ga)) if not same(e[f], g[f])]
         if bad:
-            classes = sorted({"%s->%s" % (vclass(e), vclass(g)) for _i, e, g in bad})
+            classes = sorted({"%s->%s" % (vclass(e, f == RESSEQ), vclass(g, f == RESSEQ)) for _i, e, g in bad})
             out.append((FIELD_NAMES[f], "+".join(classes),
                         "%s of atom %d: expected %r, got %r (%d atoms differ)" % (FIELD_NAMES[f], bad[0][0], bad[0][1],
                                                                                 bad[0][2], len(bad))))
